@@ -25,6 +25,40 @@ type Reply struct {
 	Silence bool
 	// Faulted marks the reply as a deliberately corrupted one (for counters).
 	Faulted bool
+	// HangUp closes the TCP connection as soon as the reply has been flushed to
+	// the socket ("hit and run").
+	HangUp bool
+}
+
+// flushConn counts completed writes to the socket so that a hang-up can wait
+// until the multiplexer has flushed what was just written.
+type flushConn struct {
+	net.Conn
+	writes   atomic.Int64
+	lastDone atomic.Int64
+}
+
+func (c *flushConn) Write(p []byte) (int, error) {
+	n, err := c.Conn.Write(p)
+	c.lastDone.Store(time.Now().UnixNano())
+	c.writes.Add(1)
+	return n, err
+}
+
+// hangUp waits until at least one socket write completed after mark and the
+// socket has been quiet for half a millisecond (the multiplexer flushes as soon
+// as it is woken), then closes the TCP connection.
+func (b *Byz) hangUp(c *flushConn, mark int64) {
+	deadline := time.Now().Add(500 * time.Millisecond)
+	for time.Now().Before(deadline) {
+		if c.writes.Load() > mark && time.Now().UnixNano()-c.lastDone.Load() > int64(500*time.Microsecond) {
+			break
+		}
+		time.Sleep(100 * time.Microsecond)
+	}
+	c.Conn.Close()
+	b.LastHangUp.Store(time.Now().UnixNano())
+	b.Count("hangups", 1)
 }
 
 // A Byz is a scriptable gateway peer. Without hooks it answers every RPC
@@ -51,7 +85,7 @@ type Byz struct {
 	l      net.Listener
 	mu     sync.Mutex
 	conns  []*gateway.Transport
-	raw    []net.Conn
+	raw    []*flushConn
 	closed chan struct{}
 	once   sync.Once
 	wg     sync.WaitGroup
@@ -59,6 +93,9 @@ type Byz struct {
 	cmu      sync.Mutex
 	counters map[string]int
 	Relayed  atomic.Int64 // relays received from the victim
+	// LastFault / LastHangUp: unix nanoseconds of the last faulted write / hang-up
+	LastFault  atomic.Int64
+	LastHangUp atomic.Int64
 }
 
 // NewByz creates a Byzantine peer on ip pretending to hold the chain ending
@@ -128,14 +165,15 @@ func (b *Byz) acceptLoop() {
 		go func() {
 			defer b.wg.Done()
 			conn.SetDeadline(time.Now().Add(5 * time.Second))
-			t, err := gateway.Accept(conn, b.hdr)
+			fc := &flushConn{Conn: conn}
+			t, err := gateway.Accept(fc, b.hdr)
 			if err != nil {
 				conn.Close()
 				return
 			}
 			conn.SetDeadline(time.Time{})
 			b.Count("conn:accepted", 1)
-			b.serve(t, conn)
+			b.serve(t, fc)
 		}()
 	}
 }
@@ -148,7 +186,8 @@ func (b *Byz) Dial(victim string) error {
 		return err
 	}
 	conn.SetDeadline(time.Now().Add(5 * time.Second))
-	t, err := gateway.Dial(conn, b.hdr)
+	fc := &flushConn{Conn: conn}
+	t, err := gateway.Dial(fc, b.hdr)
 	if err != nil {
 		conn.Close()
 		return err
@@ -158,7 +197,7 @@ func (b *Byz) Dial(victim string) error {
 	b.wg.Add(1)
 	go func() {
 		defer b.wg.Done()
-		b.serve(t, conn)
+		b.serve(t, fc)
 	}()
 	return nil
 }
@@ -170,7 +209,7 @@ func (b *Byz) Connected() bool {
 	return len(b.conns) > 0
 }
 
-func (b *Byz) serve(t *gateway.Transport, conn net.Conn) {
+func (b *Byz) serve(t *gateway.Transport, conn *flushConn) {
 	b.mu.Lock()
 	select {
 	case <-b.closed:
@@ -204,14 +243,15 @@ func (b *Byz) serve(t *gateway.Transport, conn net.Conn) {
 		go func() {
 			defer b.wg.Done()
 			defer s.Close()
-			b.handle(s)
+			b.handle(s, conn)
 		}()
 	}
 }
 
-func (b *Byz) reply(kind string, s *gateway.Stream, rep Reply) {
+func (b *Byz) reply(kind string, s *gateway.Stream, rep Reply, conn *flushConn) {
 	if rep.Faulted {
 		b.Count("faulted:"+kind, 1)
+		b.LastFault.Store(time.Now().UnixNano())
 	}
 	if rep.Silence {
 		b.Count("silence:"+kind, 1)
@@ -238,14 +278,18 @@ func (b *Byz) reply(kind string, s *gateway.Stream, rep Reply) {
 		b.Count("closed:"+kind, 1)
 		return
 	}
+	mark := conn.writes.Load()
 	if err := s.WriteResponse(rep.Obj); err != nil {
 		b.Count("writefail:"+kind, 1)
 		return
 	}
 	b.Count("answered:"+kind, 1)
+	if rep.HangUp {
+		b.hangUp(conn, mark)
+	}
 }
 
-func (b *Byz) handle(s *gateway.Stream) {
+func (b *Byz) handle(s *gateway.Stream, conn *flushConn) {
 	s.SetDeadline(time.Now().Add(20 * time.Second))
 	id, err := s.ReadID()
 	if err != nil {
@@ -258,7 +302,7 @@ func (b *Byz) handle(s *gateway.Stream) {
 		if b.OnShareNodes != nil {
 			rep = b.OnShareNodes(b, r)
 		}
-		b.reply("ShareNodes", s, rep)
+		b.reply("ShareNodes", s, rep, conn)
 	case *gateway.RPCDiscoverIP:
 		r.IP = "127.0.0.1"
 		s.WriteResponse(r)
@@ -273,7 +317,7 @@ func (b *Byz) handle(s *gateway.Stream) {
 		} else if b.HonestHeaders(r) {
 			rep = Reply{Obj: r}
 		}
-		b.reply("SendHeaders", s, rep)
+		b.reply("SendHeaders", s, rep, conn)
 	case *gateway.RPCSendV2Blocks:
 		if s.ReadRequest(r) != nil {
 			return
@@ -285,7 +329,7 @@ func (b *Byz) handle(s *gateway.Stream) {
 		} else if b.HonestBlocks(r) {
 			rep = Reply{Obj: r}
 		}
-		b.reply("SendV2Blocks", s, rep)
+		b.reply("SendV2Blocks", s, rep, conn)
 	case *gateway.RPCSendCheckpoint:
 		if s.ReadRequest(r) != nil {
 			return
@@ -297,7 +341,7 @@ func (b *Byz) handle(s *gateway.Stream) {
 		} else if b.HonestCheckpoint(r) {
 			rep = Reply{Obj: r}
 		}
-		b.reply("SendCheckpoint", s, rep)
+		b.reply("SendCheckpoint", s, rep, conn)
 	case *gateway.RPCSendTransactions:
 		if s.ReadRequest(r) != nil {
 			return
@@ -309,7 +353,7 @@ func (b *Byz) handle(s *gateway.Stream) {
 		} else if b.HonestTransactions(r) {
 			rep = Reply{Obj: r}
 		}
-		b.reply("SendTransactions", s, rep)
+		b.reply("SendTransactions", s, rep, conn)
 	case *gateway.RPCRelayV2Header:
 		if s.ReadRequest(r) == nil {
 			b.Count("recv:RelayV2Header", 1)
@@ -445,6 +489,34 @@ func (b *Byz) Call(r gateway.Object, timeout time.Duration) error {
 	return s.ReadResponse(r)
 }
 
+// CallHangUp writes the RPC id and request of r on the most recent live
+// transport and closes the TCP connection as soon as they are flushed, without
+// waiting for an answer.
+func (b *Byz) CallHangUp(r gateway.Object) error {
+	b.mu.Lock()
+	if len(b.conns) == 0 {
+		b.mu.Unlock()
+		return ErrNotConnected
+	}
+	t := b.conns[len(b.conns)-1]
+	c := b.raw[len(b.raw)-1]
+	b.mu.Unlock()
+	s, err := t.DialStream()
+	if err != nil {
+		return err
+	}
+	s.SetDeadline(time.Now().Add(5 * time.Second))
+	mark := c.writes.Load()
+	if err := s.WriteID(r); err != nil {
+		return err
+	} else if err := s.WriteRequest(r); err != nil {
+		return err
+	}
+	b.LastFault.Store(time.Now().UnixNano())
+	b.hangUp(c, mark)
+	return nil
+}
+
 // CallMismatched writes the RPC id of idObj followed by the request encoding of
 // reqObj (a malformed request when the types differ).
 func (b *Byz) CallMismatched(idObj, reqObj gateway.Object, timeout time.Duration) error {
@@ -488,7 +560,7 @@ func (b *Byz) Close() {
 		b.l.Close()
 		b.mu.Lock()
 		cs := append([]*gateway.Transport(nil), b.conns...)
-		rs := append([]net.Conn(nil), b.raw...)
+		rs := append([]*flushConn(nil), b.raw...)
 		b.mu.Unlock()
 		for _, c := range cs {
 			c.Close()
